@@ -76,3 +76,6 @@ def cases(tier, seed, ctx=None):
         for s in (-1, 4):
             for s2 in (-1, 0, 2, 4, 10):
                 yield ("range", [3, st, s, s2], "copy-str")
+    # the string constructor while other threads construct ranges of their own (a value class is reentrant)
+    for st, size in ((b"-7", 50), (b"100-200", 1000), (b"3-1", 10), (b"0-", 5), (b" 1 - 2 ", 9), (b"bogus", 9), (b"2147483000-2147483647", 3000000000)):
+        yield ("range", [5, st, size], "string-ctor-threads")
